@@ -14,6 +14,9 @@ CHECKS = {
  "C03": dict(cat="exploration", tech="runtime monitoring: generated C++ and generated Python executed back to back on the same streams (16 two-hop chains), reference decode of the final output; Python buffer-boundary sweep and I/O modes",
    text="Held on the chains explored, except for the listed known finding (Python N-d arrays of compound elements). Exploration over seeded models/values; MATLAB is not an endpoint (no interpreter).",
    note="Trusted: reference codec; CPython 3.11.7 + numpy 2.4.6 of the tooling venv (the only numpy available); shims for C++.", ref="§5 C03"),
+ "C10": dict(cat="exploration", tech="runtime monitoring / fuzzing: one monitored child process per hostile input (exit status, Go panic text and call site, child CPU and peak RSS via rusage, located-diagnostic oracle)",
+   text="Held on the inputs explored (raw bytes, 12 text/YAML mutation operators, arbitrary models, manifest and -c mutations, generic nesting) except for the listed known findings, each identified by panic call site or input class. Exploration: a fuzzer samples the input space.",
+   note="Trusted: rusage accounting; PyYAML of the system python only to excuse yaml.v3's missing line number for first-line syntax errors.", ref="§5 C10"),
 }
 NA_REASON = "check not built yet in this session (work in progress, see DESIGN.md §5 for the planned monitor)"
 
